@@ -520,6 +520,19 @@ func (mo *monitor) observe(c *raftsim.Cluster, op string, res raftsim.Result) {
 	case "SNAP":
 		mo.snapshots++
 	}
+	// --- C06/C18: a pending read is confirmed only by replicas that acknowledged a heartbeat
+	// carrying exactly its ctx
+	if st.Role == 3 {
+		for _, rd := range st.Reads {
+			for _, id := range rd.Confirmed {
+				if id != n.ID && !mo.hbAck[[2]uint64{rd.Low, rd.High}][id] {
+					for _, tag := range []string{"C06", "C18"} {
+						mo.v(tag, "leader %d counts replica %d as having confirmed read ctx %d/%d although it never acknowledged a heartbeat carrying that ctx", n.ID, id, rd.Low, rd.High)
+					}
+				}
+			}
+		}
+	}
 	// --- C03: at most one leader per term
 	if st.Role == 3 {
 		if l, ok := mo.leaderOfTerm[st.Term]; ok && l != n.ID {
